@@ -1247,7 +1247,7 @@ func repeatsCheckedCall(call *ssa.Call, ei int) bool {
 			}
 			same := true
 			for i := range c2.Call.Args {
-				if c2.Call.Args[i] != call.Call.Args[i] {
+				if c2.Call.Args[i] != call.Call.Args[i] && !copiedFrom(call.Call.Args[i], c2.Call.Args[i]) {
 					same = false
 				}
 			}
@@ -1259,6 +1259,25 @@ func repeatsCheckedCall(call *ssa.Call, ei int) bool {
 					return true
 				}
 			}
+		}
+	}
+	return false
+}
+
+// copiedFrom: y is a local record initialised as a whole copy of the record x points to (`y := *x` / `y := x` for a
+// value x), so a call given &y repeats a call given &x up to the fields stored into y afterwards.
+func copiedFrom(y, x ssa.Value) bool {
+	al, ok := y.(*ssa.Alloc)
+	if !ok || al.Referrers() == nil {
+		return false
+	}
+	for _, ref := range *al.Referrers() {
+		st, ok := ref.(*ssa.Store)
+		if !ok || st.Addr != ssa.Value(al) {
+			continue
+		}
+		if ld, ok := st.Val.(*ssa.UnOp); ok && ld.Op == token.MUL && ld.X == x {
+			return true
 		}
 	}
 	return false
